@@ -176,6 +176,9 @@ func ruleSSAColumns(p *Prog, l *Ledger, tier string) {
 			}
 		}
 	}
+	if len(U) == 0 {
+		U = updateFormatTable(sUpd)
+	}
 	compareTables(l, rule, "style-announced-vs-printed", U, S, "ssaStyle.updateFormat", "ssaStyle.string", 20)
 	compareTables(l, rule, "style-printed-vs-read", S, R, "ssaStyle.string", "newSSAStyleFromString", 20)
 	toModel := wiring(sToModel, "StyleAttributes", "ssaStyle")
@@ -596,4 +599,134 @@ func ruleSSALiterals(p *Prog, l *Ledger, tier string) {
 	} else {
 		l.Fail(rule, "", key, "", fmt.Sprintf("colour text form disagrees: writer prefix %q (hex verb %v), reader prefix %q (base 16 %v)", wPrefix, hexVerb, rPrefix, base16))
 	}
+}
+
+// updateFormatTable: updateFormat written as a local table of (column name, present) rows walked by one loop that
+// calls ssaUpdateFormat(row.name, …) under row.present: column name -> the ssaStyle field its presence test reads.
+func updateFormatTable(fn *ssa.Function) map[string]string {
+	out := map[string]string{}
+	// the call: ssaUpdateFormat(<cell a of the row>, …) dominated by a test of <cell b of the row>
+	nameCell, setCell := -1, -1
+	var table *ssa.Alloc
+	rowOf := func(v ssa.Value) (*ssa.Alloc, int, bool) {
+		// v = *(&cell.f) with cell the loop variable's copy of *(&table[i]), or *(&table[i].f)
+		u, ok := v.(*ssa.UnOp)
+		if !ok || u.Op != token.MUL {
+			return nil, 0, false
+		}
+		fa, ok := u.X.(*ssa.FieldAddr)
+		if !ok {
+			return nil, 0, false
+		}
+		base := fa.X
+		if cell, ok := base.(*ssa.Alloc); ok {
+			for _, r := range *cell.Referrers() {
+				if st, ok := r.(*ssa.Store); ok && st.Addr == ssa.Value(cell) {
+					if ld, ok := st.Val.(*ssa.UnOp); ok && ld.Op == token.MUL {
+						base = ld.X
+					}
+					// range over the array value: c = (*table)[i]
+					if ix, ok := st.Val.(*ssa.Index); ok {
+						if ld, ok := ix.X.(*ssa.UnOp); ok && ld.Op == token.MUL {
+							if al, ok := ld.X.(*ssa.Alloc); ok {
+								return al, fa.Field, true
+							}
+						}
+					}
+				}
+			}
+		}
+		ia, ok := base.(*ssa.IndexAddr)
+		if !ok {
+			return nil, 0, false
+		}
+		x := ia.X
+		if sl, ok := x.(*ssa.Slice); ok {
+			x = sl.X
+		}
+		al, ok := x.(*ssa.Alloc)
+		if !ok {
+			return nil, 0, false
+		}
+		return al, fa.Field, true
+	}
+	for _, b := range fn.Blocks {
+		for _, ins := range b.Instrs {
+			c, ok := ins.(*ssa.Call)
+			if !ok {
+				continue
+			}
+			if sc := c.Call.StaticCallee(); sc == nil || FnName(sc) != "ssaUpdateFormat" {
+				continue
+			}
+			al, f, ok := rowOf(c.Call.Args[0])
+			if !ok {
+				continue
+			}
+			for _, dc := range dominatingConds(b) {
+				if al2, f2, ok := rowOf(dc.cond); ok && al2 == al && dc.taken {
+					table, nameCell, setCell = al, f, f2
+				}
+			}
+		}
+	}
+	if table == nil {
+		return out
+	}
+	names := map[int64]string{}
+	fields := map[int64]string{}
+	for _, r := range *table.Referrers() {
+		ia, ok := r.(*ssa.IndexAddr)
+		if !ok {
+			continue
+		}
+		k, ok := constInt(ia.Index)
+		if !ok {
+			continue
+		}
+		var fas []*ssa.FieldAddr
+		for _, r2 := range *ia.Referrers() {
+			switch y := r2.(type) {
+			case *ssa.FieldAddr:
+				fas = append(fas, y)
+			case *ssa.Store:
+				// the row is built in a literal of its own and copied in: table[k] = *lit
+				if ld, ok := y.Val.(*ssa.UnOp); ok && y.Addr == ssa.Value(ia) && ld.Op == token.MUL {
+					if lit, ok := ld.X.(*ssa.Alloc); ok {
+						for _, r3 := range *lit.Referrers() {
+							if fa, ok := r3.(*ssa.FieldAddr); ok {
+								fas = append(fas, fa)
+							}
+						}
+					}
+				}
+			}
+		}
+		for _, fa := range fas {
+			for _, r3 := range *fa.Referrers() {
+				st, ok := r3.(*ssa.Store)
+				if !ok || st.Addr != ssa.Value(fa) {
+					continue
+				}
+				switch fa.Field {
+				case nameCell:
+					if s, ok := constStr(st.Val); ok {
+						names[k] = s
+					}
+				case setCell:
+					fs := strset{}
+					traceField(st.Val, "ssaStyle", map[ssa.Value]bool{}, fs)
+					if f, ok := oneOf(fs); ok {
+						fields[k] = f
+					}
+				}
+			}
+		}
+	}
+	for k, n := range names {
+		if f, ok := fields[k]; ok {
+			out[n] = f
+		}
+	}
+	return out
 }
